@@ -14,6 +14,7 @@ PROPS = {}
 
 PROPS["C18"] = {
     "kani": "c18",
+    "mir": "c18",
     "level": "model_checking",
     "explanation": "Bounded model checking (Kani/CBMC) of the real EventIdGenerator::next from an arbitrary reachable generator state under a symbolic clock: one inductive step covers bursts of any length; plus layout, cross-shard and WAL-entry id preservation harnesses.",
     "trusted_base": ["cfg(kani) hooks in event_id.rs: verif_from_parts/verif_parts (field access) and verif_clock (scripted clock consulted first by current_millis)"],
@@ -21,7 +22,7 @@ PROPS["C18"] = {
         "synthetic ids for rows whose id column is missing or zero (condition_evaluator.rs: SIMD + HashMap, not executable under Kani)",
         "dedup across segments in the response writer (HashSet)",
         "clock readings before 2020-12 or beyond epoch+2^42 ms (reported by covers in A-2)",
-        "that WAL recovery is the only other writer of ids (read in wal_recovery.rs; JSON parsing of WAL lines is out of reach)",
+        "JSON parsing of WAL lines (serde)",
     ],
 }
 
@@ -200,6 +201,7 @@ PROPS["C06"] = {
 }
 
 PROPS["C08"]["trusted_base"] = MIR_TRUSTED
+PROPS["C18"]["trusted_base"] = PROPS["C18"]["trusted_base"] + MIR_TRUSTED
 PROPS["C09"]["trusted_base"] = MIR_TRUSTED
 PROPS["C16"]["trusted_base"] = MIR_TRUSTED
 PROPS["C02"]["trusted_base"] = MIR_TRUSTED
